@@ -930,6 +930,12 @@ func inputMouse(tw *trace.Writer, rng *rand.Rand, names []string, n int, st map[
 		for btn := 0; btn < 224; btn++ {
 			one("x11", btn, 1+(btn*3)%200, 1+(btn*5)%180, 'M', btn%7 == 0, nil)
 		}
+		// coordinate bytes below 33 (cells at or left of / above the origin): clipped to 0
+		for _, c := range []int{-31, -20, -1, 0} {
+			one("x11", 0, c, 5, 'M', false, nil)
+			one("x11", 35, 7, c, 'M', c%2 == 0, nil)
+			one("x11", 2, c, c, 'M', false, nil)
+		}
 		// press / motion / wheel / release sequences on one decoder
 		for i := 0; i < n; i++ {
 			var vp *tcell.VerifParser
